@@ -132,9 +132,24 @@ def main():
                                 fh.write("/ENCODING %s\n%s\n/FRAMEOFFSET %d\na RAW %s %d\n" % (enc, gdlib.sex_directive(sex), off, NAMES[t], spf))
                             script.append("open %s rw" % d)
                             script.append("put a %d %d 0 %d %s" % (t, off + gap, n, gdlib.hexs(comps)))
+                            allc = [0] * (gap * spf * NCOMP[t]) + comps
+                            # a second write through the same handle: starts on a run boundary or anywhere, its first
+                            # value often equal to the sample before it (text: appends only, widths may differ)
+                            nc_ = NCOMP[t]; ntot = len(allc) // nc_
+                            if enc == "text":
+                                p2 = ntot
+                            else:
+                                bounds = [i for i in range(1, ntot) if allc[i * nc_:(i + 1) * nc_] != allc[(i - 1) * nc_:i * nc_]]
+                                p2 = rng.choice(bounds) if bounds and rng.random() < 0.6 else rng.randint(0, ntot)
+                            n2 = rng.choice([1, 2, 5])
+                            second = gen_comps(rng, t, n2, "runs" if enc == "sie" else "random", for_text=(enc == "text"))
+                            if p2 >= 1 and rng.random() < 0.6:
+                                second[:nc_] = allc[(p2 - 1) * nc_:p2 * nc_]
+                            script.append("put a %d %d %d %d %s" % (t, off, p2, n2, gdlib.hexs(second)))
+                            allc = allc[:p2 * nc_] + second + allc[(p2 + n2) * nc_:]
                             script.append("close")
                             cases.append({"dir": d, "t": t, "sex": sex, "enc": enc, "off": off, "gap": gap, "spf": spf,
-                                          "n": n, "comps": [0] * (gap * spf * NCOMP[t]) + comps})
+                                          "n": n, "n2": n2, "comps": allc})
     rc, out = vlib.sh([exe], inp=("\n".join(script) + "\n").encode(), timeout=1500)
     res = out.strip().split("\n")
     if rc != 0 or len(res) != len(script):
@@ -158,11 +173,11 @@ def main():
     spec_bad, model_bad = {}, {}
     for k, c in enumerate(cases):
         t, sex, enc = c["t"], c["sex"], c["enc"]
-        r_open, r_put, r_close = res[3 * k:3 * k + 3]
+        r_open, r_put, r_put2, r_close = res[4 * k:4 * k + 4]
         key = "write/%s/%s/%s" % (enc, NAMES[t], sex)
         chk.cov["evaluations"] += 1
-        if r_open != "open 0" or r_put != "put %d 0" % c["n"] or r_close != "close 0":
-            spec_bad.setdefault(key, []).append((c, "calls failed: %s | %s | %s" % (r_open, r_put, r_close)))
+        if r_open != "open 0" or r_put != "put %d 0" % c["n"] or r_put2 != "put %d 0" % c["n2"] or r_close != "close 0":
+            spec_bad.setdefault(key, []).append((c, "calls failed: %s | %s | %s | %s" % (r_open, r_put, r_put2, r_close)))
             continue
         raw = gdlib.read_field_file(c["dir"], "a", enc)
         if raw is None:
@@ -188,7 +203,7 @@ def main():
                     key = KEY_TEXTPAD
                 spec_bad.setdefault(key, []).append((c, "file payload %s, Standards layout %s" % (payload.hex()[:160], want.hex()[:160])))
                 continue
-        if M[k] != "?" and M[k] != payload.hex():
+        if M[k] != "?" and enc != "sie" and M[k] != payload.hex():
             model_bad.setdefault(key, []).append((c, "file payload %s, model layout %s" % (payload.hex()[:160], M[k][:160])))
         if payload and (enc != "none" or sex != "l" or c["off"] or c["gap"]):
             nontriv.add((t, sex, enc, payload))
@@ -227,8 +242,10 @@ def main():
                             fh.write("%s\n/FRAMEOFFSET %d\na RAW %s %d\n" % (gdlib.sex_directive(sex), off, NAMES[t], spf))
                         with open(os.path.join(d, "a" + ext), "wb") as fh:
                             fh.write(gdlib.container_encode(enc, payload, ext))
-                        script += ["open %s ro" % d, "get a %d %d 0 %d" % (t, off, n + 3), "nframes", "enc 0", "close"]
-                        rcases.append({"dir": d, "t": t, "sex": sex, "enc": enc, "ext": ext, "off": off, "spf": spf, "n": n,
+                        k1 = rng.randint(0, max(0, n - 1)); k2 = rng.randint(1, max(1, n - k1))
+                        script += ["open %s ro" % d, "get a %d %d 0 %d" % (t, off, n + 3), "nframes", "enc 0",
+                                   "get a %d %d 0 %d" % (t, off, min(n, 5)), "get a %d %d %d %d" % (t, off, k1, k2), "close"]
+                        rcases.append({"dir": d, "t": t, "sex": sex, "enc": enc, "ext": ext, "off": off, "spf": spf, "n": n, "k1": k1, "k2": k2,
                                        "comps": comps, "payload": payload})
     rc, out = vlib.sh([exe], inp=("\n".join(script) + "\n").encode(), timeout=1500)
     res = out.strip().split("\n")
@@ -251,7 +268,7 @@ def main():
         return chk.finish()
     for k, c in enumerate(rcases):
         t, sex, enc = c["t"], c["sex"], c["enc"]
-        r_open, r_get, r_nf, r_enc, r_close = res[5 * k:5 * k + 5]
+        r_open, r_get, r_nf, r_enc, r_get2, r_get3, r_close = res[7 * k:7 * k + 7]
         key = "read/%s%s/%s/%s" % (enc, c["ext"] if c["ext"] == ".lzma" else "", NAMES[t], sex)
         chk.cov["evaluations"] += 1
         g = gdlib.parse_get(r_get)
@@ -259,6 +276,14 @@ def main():
         if r_open != "open 0" or g is None or g[1] != 0 or g[0] != c["n"] or g[2] != c["comps"] or r_nf != want_nf or r_enc != "enc %s 0" % enc:
             spec_bad.setdefault(key, []).append((c, "library reads %s | %s | %s, the file holds %d samples %s.. of encoding %s, expected %s" % (
                 r_get[:160], r_nf, r_enc, c["n"], gdlib.hexs(c["comps"][:6]), enc, want_nf)))
+            continue
+        nc_ = NCOMP[t]
+        g2, g3 = gdlib.parse_get(r_get2), gdlib.parse_get(r_get3)
+        w2 = c["comps"][:min(c["n"], 5) * nc_]
+        w3 = c["comps"][c["k1"] * nc_:(c["k1"] + c["k2"]) * nc_]
+        if g2 is None or g2[1] != 0 or g2[2] != w2 or g3 is None or g3[1] != 0 or g3[2] != w3:
+            spec_bad.setdefault(key + "/re-read", []).append((c, "after reading the whole field, reading its beginning again gives %s (expected %s) and samples %d..%d give %s (expected %s)" % (
+                r_get2[:120], gdlib.hexs(w2)[:80], c["k1"], c["k1"] + c["k2"], r_get3[:120], gdlib.hexs(w3)[:80])))
             continue
         if M[k] != "?":
             m = M[k].split()
